@@ -494,6 +494,17 @@ var scripts = [][]op{
 		{k: "resolve", a: 1, b: 0}, {k: "pass", a: 135}, {k: "resolve", a: 1, b: 0}, {k: "pass", a: 135}, {k: "resolve", a: 1, b: 0}, {k: "pass", a: 135},
 		{k: "resolve", a: 1, b: 0}, {k: "pass", a: 135},
 		{k: "resolve", a: 1, b: 1}, {k: "pipefail", a: 1}, {k: "pass", a: 45}, {k: "resolve", a: 1, b: 0}, {k: "pass", a: 48}, {k: "pass", a: 100}, {k: "closesock"}},
+	// a connection that is established but never attached does NOT reset the delay: ten refusals (>= 78 ms), then the protocol
+	// refuses the pipe (and then the Attaching hook closes one): the next attempt is not inside a 60 ms pass
+	{{k: "newdialer", a: 1, b: 30, c: 120}, {k: "dial", a: 1},
+		{k: "resolve", a: 1, b: 0}, {k: "pass", a: 135}, {k: "resolve", a: 1, b: 0}, {k: "pass", a: 135}, {k: "resolve", a: 1, b: 0}, {k: "pass", a: 135},
+		{k: "resolve", a: 1, b: 0}, {k: "pass", a: 135}, {k: "resolve", a: 1, b: 0}, {k: "pass", a: 135}, {k: "resolve", a: 1, b: 0}, {k: "pass", a: 135},
+		{k: "resolve", a: 1, b: 0}, {k: "pass", a: 135}, {k: "resolve", a: 1, b: 0}, {k: "pass", a: 135}, {k: "resolve", a: 1, b: 0}, {k: "pass", a: 135},
+		{k: "resolve", a: 1, b: 0}, {k: "pass", a: 135},
+		{k: "refuse", a: 1}, {k: "resolve", a: 1, b: 1}, {k: "pass", a: 60}, {k: "pass", a: 135}, {k: "resolve", a: 1, b: 1}, {k: "pass", a: 60}, {k: "pass", a: 135},
+		{k: "resolve", a: 1, b: 1}, {k: "pass", a: 60}, {k: "pass", a: 135},
+		{k: "refuse", a: 0}, {k: "policy", a: 1}, {k: "resolve", a: 1, b: 1}, {k: "pass", a: 60}, {k: "pass", a: 135}, {k: "resolve", a: 1, b: 1}, {k: "pass", a: 60}, {k: "pass", a: 135},
+		{k: "resolve", a: 1, b: 1}, {k: "pass", a: 60}, {k: "pass", a: 135}, {k: "closesock"}},
 }
 
 var scriptIdx int
